@@ -115,21 +115,44 @@ def run(ctx):
             ext = f.calls_to(r"^std::path::Path::extension$")
             cont = [c for c in f.calls if c.matches(r"::contains$")]
             push = [c for c in f.calls if re.search(r"Vec::<.*CodeFile>::push$", c.func.get("full", ""))]
-            if ctx.check(len(ext) == 1 and len(cont) == 1 and len(push) == 1, P, "anchor|ext-test", "extension()/contains()/push() found (%d/%d/%d)" % (len(ext), len(cont), len(push)), f.where()):
-                E, C, PU = ext[0], cont[0], push[0]
+            membership = None   # (deciding call, haystack operand, needle operand, exact?)
+            if len(cont) == 1:
+                membership = (cont[0], cont[0].args[0], cont[0].args[1],
+                              "Vec<std::string::String>" in cont[0].func.get("full", "") or "[std::string::String]" in cont[0].func.get("full", ""))
+            elif not cont:
+                # `extensions.iter().any(|w| w == ext)` (seen as a loop after desugaring) or a hand-written loop:
+                # one string equality inside a loop over the list
+                for nx2 in f.calls_to(r"Iterator>::next$"):
+                    if nx2.bb == NX.bb or not nx2.args:
+                        continue
+                    lp2 = loop_containing(f, nx2.bb)
+                    eqs = [c for c in f.calls if c.bb in lp2 and re.search(r"PartialEq.*::eq$", c.name) and re.search(r"String|str", c.func.get("full", ""))]
+                    if len(eqs) == 1 and len(eqs[0].args) >= 2:
+                        pe = Prov(f)
+                        sides = eqs[0].args[:2]
+                        item = [a for a in sides if any(x.bb == nx2.bb for x in call_chain(f, a)[0]) or any(o[0] == "call" and o[1].bb == nx2.bb for o in pe.origins_op(a))]
+                        other = [a for a in sides if a not in item]
+                        if len(item) == 1 and len(other) == 1:
+                            membership = (eqs[0], nx2.args[0], other[0], True)
+            if ctx.check(len(ext) == 1 and membership is not None and len(push) == 1, P, "anchor|ext-test", "extension()/membership test/push() found (%d/%s/%d)" % (len(ext), "1" if membership else "0", len(push)), f.where()):
+                E, PU = ext[0], push[0]
+                C, hay_op, needle_op, exact = membership
                 che, re_ = call_chain(f, E.args[0])
                 ne = [c.name.split("::")[-1] for c in che]
                 ctx.check(ne[:1] == ["path"] and che[0].matches(r"walkdir::DirEntry::path$"), P, "ext-of-entry", "the extension is taken from the walked entry's path (%s)" % ne[:2], E.where())
-                hay = _field_path(f, C.args[0])
+                hay = _field_path(f, hay_op)
+                if not hay:
+                    chh, _rh = call_chain(f, hay_op)     # `list.iter()`: the list is the receiver at the end of the chain
+                    if chh and all(x.matches(r"::(iter|into_iter|deref|as_slice|next)$") for x in chh) and chh[-1].args:
+                        hay = _field_path(f, chh[-1].args[0])
                 ctx.check(hay[-2:] == ["rust", "extensions"], P, "ext-list", "the list searched is config.rust.extensions (%s)" % hay, C.where())
-                chn, rn = call_chain(f, C.args[1])
+                chn, rn = call_chain(f, needle_op)
                 nn = [c.name.split("::")[-1] for c in chn]
                 upto = nn[: nn.index("extension") + 1] if "extension" in nn else nn
                 allowed = {"to_string", "to_owned", "ok_or", "to_str", "extension", "into", "from", "unwrap_or", "to_string_lossy", "into_owned"}
                 ctx.check("extension" in nn and all(n in allowed for n in upto), P, "ext-unmodified",
                           "the tested string is the entry's extension, converted without case folding or trimming (%s)" % upto, C.where())
-                ctx.check("Vec<std::string::String>" in C.func.get("full", "") or "[std::string::String]" in C.func.get("full", ""), P, "ext-exact",
-                          "membership is exact string equality (slice::contains on Vec<String>)", C.where())
+                ctx.check(exact, P, "ext-exact", "membership is exact string equality (slice::contains on Vec<String>, or `==` in a loop over it)", C.where())
                 # push only on contains==true
                 dom = cfg.dominators(f)
                 sw = None
@@ -147,19 +170,37 @@ def run(ctx):
                 # head passes the push. A skip condition in between hides an in-scope file from both modes.
                 if sw is not None:
                     skips = []
-                    for sb in sorted(cfg.reach(f, [sw[1]], avoid=[NX.bb, PU.bb])):
-                        es2 = enum_switch(f, sb)
-                        t2 = f.term(sb)
-                        if t2["k"] != "switch":
-                            continue
-                        for tgt in set(f.succ[sb]):
-                            if PU.bb not in cfg.reach(f, [tgt], avoid=[NX.bb]) and cfg.path(f, tgt, [NX.bb], avoid=[PU.bb]) is not None:
-                                what = "?"
-                                if es2 is not None and not es2[0]["p"]:
-                                    d2 = single_def(f, es2[0]["l"])
-                                    if d2 and d2[1] == "call":
-                                        what = d2[2].name.split("::")[-1]
-                                skips.append((sb, what))
+                    seen_sw = set()
+                    for _ in range(4):
+                        # a feasible path (values tracked: the membership flag is true here) from the match back to the
+                        # loop head that never lists the file
+                        pth = cfg.path_t(f, sw[1], [NX.bb], avoid=[PU.bb] + sorted(seen_sw))
+                        if not pth:
+                            break
+                        dec = None
+                        for sb in pth:
+                            if f.term(sb)["k"] == "switch" and any(PU.bb in cfg.reach(f, [t_], avoid=[NX.bb]) for t_ in f.succ[sb]):
+                                dec = sb
+                        if dec is None:
+                            skips.append((pth[-1], "?"))
+                            break
+                        what = "?"
+                        es2 = enum_switch(f, dec)
+                        if es2 is not None and not es2[0]["p"]:
+                            d2 = single_def(f, es2[0]["l"])
+                            if d2 and d2[1] == "call":
+                                what = d2[2].name.split("::")[-1]
+                            else:
+                                # the Option travelled through helpers / combinators: name the last call on this path whose
+                                # result was examined before the value got here
+                                for sb2 in pth[: pth.index(dec) + 1]:
+                                    e3 = enum_switch(f, sb2)
+                                    if e3 is not None and not e3[0]["p"]:
+                                        d3 = single_def(f, e3[0]["l"])
+                                        if d3 and d3[1] == "call":
+                                            what = d3[2].name.split("::")[-1]
+                        skips.append((dec, what))
+                        seen_sw.add(dec)
                     for (sb, what) in skips:
                         ctx.bad(P, "listing-total|skip-on|%s" % what,
                                 "a regular file with a configured extension is silently left out when `%s` gives no value (e.g. a path that is not valid UTF-8): neither mode ever sees it" % what, f.where(sb))
@@ -302,9 +343,12 @@ def run(ctx):
             ctx.check(r1 is not None and r1 == r2, P, "same-path", "the path given to map (rename destination) is the path that was read", mp[0].where())
             d = single_def(pr, r1) if r1 is not None else None
             okp = False
-            if d and d[1] == "call" and d[2].matches(r"::clone$"):
-                fp = _field_path(pr, d[2].args[0])
+            if d and d[1] == "call" and d[2].matches(r"::(clone|as_str|to_string|to_owned|as_ref|deref|borrow)$") and not d[2].local:
+                fp = _field_path(pr, d[2].args[0])      # a copy of / a view on the element's `path` field
                 okp = fp[-1:] == ["path"]
+            elif d and d[1] == "assign" and d[2]["rv"]["k"] in ("ref", "use"):
+                src_ = {"copy": d[2]["rv"]["place"]} if d[2]["rv"]["k"] == "ref" else d[2]["rv"]["op"]
+                okp = _field_path(pr, src_)[-1:] == ["path"]   # `&file.path`
             ctx.check(okp, P, "path-from-list", "that path is the `path` of the current element of finder.code_files", lc[0].where())
             # contents given to map are what load_code returned
             prov = Prov(pr)
